@@ -121,6 +121,12 @@ class Conc:
         if k == "if":
             return f'<if test="{expr_str(n["cond"], False)}">{kids}</if>{nl}'
         if k == "loop":
+            if n["form"] == "for":
+                data = self.rnd.choice([", ", ","]).join(str(i + 1) for i in range(n["cnt"]))
+                a = [f'var="{n["lv"]}"', f'data="{data}"']
+                if self.rnd.random() < 0.3:
+                    a.append('idx-var="unusedidx"')
+                return f'<for {" ".join(a)}>{kids}</for>{nl}'
             if n["form"] == "count":
                 a = [f'count="{n["cnt"]}"']
                 if n["lv"] != "-":
